@@ -309,5 +309,6 @@ EXPLANATION = (
     "obligation). R3: both extension wrappers return hdf5_write_data_object->global_index read after the last library call. "
     "R4: close() caches the three values before deleting the channel object and the getters fall back to them; the C fields "
     "are stored only during file creation. Does NOT decide the value of the C cursor.")
+TECHNIQUE = ('Python ast + clang JSON AST; symbolic linear forms of the counter updates; ordering relative to the extension call; def-use of cached values')
 ASSUMPTIONS = ["the C cursor after a successful contiguous write of n samples at index p is p+n (value-level, not decided)"]
 FILES = [RF, C_EXT, C_LIB]
